@@ -325,6 +325,6 @@ def finish_case(case):
             fs0.setdefault(d, dict(t="dir" if fs0[p]["t"] != "none" else "none", c=""))
             if fs0[p]["t"] != "none": fs0[d]["t"] = "dir"
             d = os.path.dirname(d)
-    case["nodes_spec"] = {n: dict(kind=v["kind"], path=v["path"], filt=v["filt"], inner=v.get("inner", "")) for n, v in case["nodes"].items()}
+    case["nodes_spec"] = {n: dict(kind=v["kind"], path=v["path"], filt=v["filt"], inner=v.get("inner", ""), rootnode=v.get("rootnode", "")) for n, v in case["nodes"].items()}
     case.setdefault("paths", {})
     return case
